@@ -1,5 +1,6 @@
 import Props.C08
 import Lemmas.Sort
+import Model.ReqArg
 /-!
 # C19 — no input makes the library panic or hang
 
@@ -121,6 +122,68 @@ theorem lastOpt_some (target : Str) (P : Prog) (nd : Node) (w : Str) (c : Str)
   have := h c hc
   rw [this] at heq
   revert heq; decide
+
+/-! ## `GetRequiredArg*` (`helpers.go`): total, and nothing of the list is lost -/
+
+/-- the three ways a call on a non-empty list can end all hand back the tail, and the element taken is the head:
+`args[0]` / `args[1:]` are only evaluated on a non-empty list -/
+theorem required_arg_conserves (P : Prog) (n hn idx : Nat) (kind : ReqKind) (args : List Str) (secs : List Section)
+    (a : Str) (rest : List Str)
+    (h : (getRequiredArg ext P n hn idx kind args secs).2 = .ok a rest ∨
+         (getRequiredArg ext P n hn idx kind args secs).2 = .convInt a rest ∨
+         (getRequiredArg ext P n hn idx kind args secs).2 = .convFloat a rest) :
+    args = a :: rest := by
+  cases args with
+  | nil => simp [getRequiredArg] at h
+  | cons x xs =>
+    cases kind <;> simp only [getRequiredArg] at h
+    · simpa using h
+    · cases hx : atoi x <;> simp [hx] at h <;> simp [h]
+    · cases hx : ext.floatOk x <;> simp [hx] at h <;> simp [h]
+
+/-- the "missing argument" outcome is exactly the empty list -/
+theorem required_arg_missing_iff (P : Prog) (n hn idx : Nat) (kind : ReqKind) (args : List Str) (secs : List Section) :
+    (∃ named help, (getRequiredArg ext P n hn idx kind args secs).2 = .missing named help) ↔ args = [] := by
+  cases args with
+  | nil => simp [getRequiredArg]
+  | cons x xs =>
+    cases kind <;> simp only [getRequiredArg]
+    · simp
+    · cases atoi x <;> simp
+    · cases ext.floatOk x <;> simp
+
+/-- the message names the argument declared at the position the object has reached, when one is declared there;
+the help printed is the synopsis unless sections are asked for -/
+theorem required_arg_missing_names (P : Prog) (n hn idx : Nat) (kind : ReqKind) (secs : List Section)
+    (h : idx < (P.node n).synArgs.length) :
+    (getRequiredArg ext P n hn idx kind [] secs).2 =
+      .missing (some ((P.node n).synArgs[idx]).1)
+        (helpOutput ext P hn (if secs.isEmpty then [.synopsis] else secs)) := by
+  simp [getRequiredArg, h]
+
+/-- every call advances the object's argument counter by one, whatever the outcome -/
+theorem required_arg_counter (P : Prog) (n hn idx : Nat) (kind : ReqKind) (args : List Str) (secs : List Section) :
+    (getRequiredArg ext P n hn idx kind args secs).1 = idx + 1 := by
+  cases args <;> rfl
+
+/-- an `int` / `float64` success is a text the conversion accepts -/
+theorem required_arg_converts (P : Prog) (n hn idx : Nat) (args : List Str) (secs : List Section) (a : Str)
+    (rest : List Str) :
+    ((getRequiredArg ext P n hn idx .int args secs).2 = .ok a rest → (atoi a).isSome = true) ∧
+    ((getRequiredArg ext P n hn idx .float args secs).2 = .ok a rest → ext.floatOk a = true) := by
+  cases args with
+  | nil => simp [getRequiredArg]
+  | cons x xs =>
+    constructor
+    · simp only [getRequiredArg]
+      cases hx : atoi x <;> simp
+      intro h _; rw [← h, hx]; rfl
+    · simp only [getRequiredArg]
+      cases hx : ext.floatOk x <;> simp
+      intro h _; rw [← h]; exact hx
+
+example : (getRequiredArg Demo.ext Demo.prog 0 0 0 .int [b "12", b "x"] []).2 = .ok (b "12") [b "x"] ∧
+          (getRequiredArg Demo.ext Demo.prog 0 0 0 .int [b "1x"] []).2 = .convInt (b "1x") [] := by decide
 
 /-! Non-vacuity: a failing parse. -/
 example : (parseUser Demo.ext Demo.prog [b "--num", b "x"]).remaining = none ∧
